@@ -26,7 +26,14 @@ mod kernels {
         let rer = r.rer();
         assert!(rer >= 0.0 && rer <= 1.0);
         if r.ren + r.nren == 0.0 { assert!(rer == 0.0); }
-        if r.nren == 0.0 && r.ren > 0.0 { assert!(rer == 1.0); }
+    }
+
+    /// C13: only renewable energy => RER is exactly 1 (x / x == 1 in IEEE arithmetic)
+    #[kani::proof]
+    fn rer_all_renewable_is_one() {
+        let r = RenNrenCo2::new(finite_nonneg(), 0.0, 0.0);
+        kani::assume(r.ren > 0.0);
+        assert!(r.rer() == 1.0);
     }
 
     /// C12: the real compute_f_match at one step: f in [0.5, 1]; f == 1 without load matching or when production or use is 0
